@@ -10,12 +10,15 @@ use crate::{Ctx, Tier};
 use serde_json::{json, Value};
 use std::time::Duration;
 
+pub mod handleprops;
 pub mod pairprops;
 pub mod treeprops;
 
 pub fn run_check(ctx: &Ctx, id: &str) -> i32 {
     match id {
         "C01" | "C03" | "C05" | "C08" | "C09" | "C10" | "C12" => treeprops::run(ctx, id),
+        "C04" => handleprops::run_c04(ctx),
+        "C14" => handleprops::run_c14(ctx),
         "C02" => pairprops::run_c02(ctx),
         "C07" => pairprops::run_c07(ctx),
         _ => {
